@@ -65,7 +65,7 @@ func c09(p *Prog, r *Report) {
 						for root.Parent() != nil {
 							root = root.Parent()
 						}
-						if root != fin {
+						if root != fin && !p.onlyVia(root, map[*ssa.Function]bool{fin: true}) {
 							badWrites++
 							r.Fail(R1, shortName(f)+" updates ClientState."+fld, p.InstrPos(in), "ClientState map updated outside FinalizeIndex")
 						} else {
@@ -89,6 +89,9 @@ func c09(p *Prog, r *Report) {
 						root := f
 						for root.Parent() != nil {
 							root = root.Parent()
+						}
+						if root != ver && p.onlyVia(root, map[*ssa.Function]bool{ver: true}) {
+							root = ver // a constructor helper reachable only from VerifyRequest
 						}
 						created[shortName(root)]++
 					}
@@ -119,7 +122,31 @@ func c09(p *Prog, r *Report) {
 	r.Check(len(puts) >= 1, R1, "VerifyRequest registers the state with cache.Put", p.Pos(ver.Pos()), fmt.Sprintf("%d Put site(s)", len(puts)), "no cache.Put in VerifyRequest: a verified client is never registered, so every FinalizeIndex would refuse it")
 
 	// ---- R2: guard shape in FinalizeIndex
-	s := p.NewSym(fin)
+	// the binding step is written in FinalizeIndex itself or in a helper that
+	// only FinalizeIndex reaches; the guard-shape rules are evaluated where the
+	// update is, with the helper's parameters bound to what FinalizeIndex passes
+	fs := p.NewSym(fin)
+	bf, s := fin, fs
+	var callB *ssa.Call
+	for _, in := range upd {
+		root := in.Parent()
+		for root.Parent() != nil {
+			root = root.Parent()
+		}
+		if fld, _ := clientStateField(in.(*ssa.MapUpdate).Map); fld == "clientIndices" && root != fin {
+			for _, ds := range p.deepSites(fs, func(n string) bool { return n == shortName(root) }) {
+				if c, ok := ds.Site.(*ssa.Call); ok && c.Parent() == fin {
+					bf, callB = root, c
+					s = fs.child(root)
+					for i, prm := range root.Params {
+						if i < len(c.Call.Args) {
+							s.params[prm] = fs.Of(c.Call.Args[i])
+						}
+					}
+				}
+			}
+		}
+	}
 	ff := s.ff
 	var lookup *ssa.Lookup
 	var update *ssa.MapUpdate
@@ -131,7 +158,7 @@ func c09(p *Prog, r *Report) {
 			nUpd++
 		}
 	}
-	for _, b := range fin.Blocks {
+	for _, b := range bf.Blocks {
 		for _, in := range b.Instrs {
 			if lk, ok := in.(*ssa.Lookup); ok && lk.CommaOk {
 				if fld, ok := clientStateField(lk.X); ok && fld == "clientIndices" {
@@ -151,7 +178,7 @@ func c09(p *Prog, r *Report) {
 	r.Check(dominates(lookup, update), R2, "lookup precedes the update", p.InstrPos(update), "lookup dominates update", "the update is not dominated by the lookup: a binding can be overwritten before it is consulted")
 
 	// rejecting return: facts ok=true and w != v
-	rps := ff.RetPoints(verdictIndex(fin))
+	rps := ff.RetPoints(verdictIndex(bf))
 	var guardRets []*RetPoint
 	for i := range rps {
 		rp := &rps[i]
@@ -200,6 +227,20 @@ func c09(p *Prog, r *Report) {
 	}
 	r.Check(nS > 0 && nS == nDom, R2, "every accepted call performs the update", p.InstrPos(update), fmt.Sprintf("update dominates %d/%d success returns", nDom, nS), fmt.Sprintf("update dominates only %d of %d success returns: an accepted pair may be left unbound", nDom, nS))
 
+	if callB != nil {
+		// the helper's verdict is FinalizeIndex's: success only behind its success,
+		// and the helper has no error return other than the guarded one
+		p.RequireOnSuccess(r, R2, fin, CallReq{Desc: "binding step " + shortName(bf) + " ok", Callee: shortName(bf)})
+		nFail := 0
+		for i := range rps {
+			if rps[i].Outcome == Fails {
+				nFail++
+			}
+		}
+		r.Check(nFail == len(guardRets), R2, shortName(bf)+": every rejection is the collision guard", p.Pos(bf.Pos()), fmt.Sprintf("%d rejecting return(s)", nFail), fmt.Sprintf("%d rejecting returns but %d are the guard ok && stored != presented", nFail, len(guardRets)))
+		rps = fs.ff.RetPoints(verdictIndex(fin))
+		s = fs
+	}
 	// ---- R3: classify error returns by their nearest guard
 	allowedErr := map[string]bool{
 		"tokens/type3.unmarshalPublicKey":     true,
@@ -227,6 +268,8 @@ func c09(p *Prog, r *Report) {
 			n := calleeName(c.Common())
 			if allowedErr[n] {
 				why = "decode/derivation failure of " + n
+			} else if callB != nil && c == callB {
+				why = "collision guard ok && stored != presented (in " + shortName(bf) + ")"
 			} else if strings.HasSuffix(n, "ClientStateCache).Get") {
 				why = "unknown client (cache miss)"
 			}
@@ -244,8 +287,12 @@ func c09(p *Prog, r *Report) {
 		}
 		// no map update may precede this return
 		pre := false
+		if callB != nil && reaches(callB, rp.Ret) && !strings.HasPrefix(why, "collision guard") {
+			pre = true
+			r.Fail(R3, key+": no prior update", p.InstrPos(callB), "the binding step can execute before the error return at "+p.Pos(rp.Ret.Pos())+": a rejected call alters state")
+		}
 		for _, u := range upd {
-			if !reaches(u, rp.Ret) {
+			if u.Parent() != fin || !reaches(u, rp.Ret) {
 				continue
 			}
 			// an insert-if-absent into a map no decision reads does not alter
@@ -264,7 +311,16 @@ func c09(p *Prog, r *Report) {
 	}
 
 	// ---- R4: state is the cache entry of the call's own client key
-	st := s.pointeeName(lookup.X.(*ssa.UnOp).X.(*ssa.FieldAddr).X)
+	bsym := fs
+	if callB != nil {
+		bsym = fs.child(bf)
+		for i, prm := range bf.Params {
+			if i < len(callB.Call.Args) {
+				bsym.params[prm] = fs.Of(callB.Call.Args[i])
+			}
+		}
+	}
+	st := bsym.pointeeName(lookup.X.(*ssa.UnOp).X.(*ssa.FieldAddr).X)
 	wantSt := "extract<0>(call<(tokens/type3.ClientStateCache).Get>(param:0.cache, call<encoding/hex.EncodeToString>(param:1)))"
 	r.Check(st == wantSt, R4, "state = cache.Get(hex(clientKey))", p.InstrPos(lookup), "state consulted is "+wantSt, "state consulted is "+clip(st, 300)+", required "+wantSt)
 	// and the success path is dominated by Get ok=true
